@@ -125,9 +125,12 @@ def evaluate(e, env):
             if e.attr not in base.names: raise Unsupported("%s.%s is outside the trusted part of the standard library" % (getattr(base.obj, "__name__", "?"), e.attr))
             v_ = getattr(base.obj, e.attr)
             if isinstance(v_, type) and not issubclass(v_, BaseException): return PyFn(lambda *a, _f=v_, **k: _trusted_call(_f, [(x.fn if isinstance(x, PyFn) else x) for x in a], k))
+            if isinstance(v_, _BoundedItertools._Chain):
+                f_ = PyFn(lambda *a, _f=v_, **k: _trusted_call(_f, a, k)); f_.from_iterable = PyFn(lambda its_: _BoundedItertools._Chain.from_iterable(_iterate(its_, env) if isinstance(its_, Inst) else its_)); return f_
             return PyFn(lambda *a, _f=v_, **k: _trusted_call(_f, a, k)) if callable(v_) and not isinstance(v_, type) else v_
         if isinstance(base, _re.Pattern) and e.attr in ("pattern", "flags"): return getattr(base, e.attr)
         if e.attr == "__class__" and (base is None or isinstance(base, (str, int, float, tuple, list, set, frozenset, bytes))) and not isinstance(base, SList): return PyFn(type(base))      # the class of a primitive value
+        if isinstance(base, PyFn) and e.attr == "from_iterable" and isinstance(getattr(base, "from_iterable", None), PyFn): return base.from_iterable
         if isinstance(base, PyFn) and isinstance(base.fn, type) and e.attr == "__name__": return base.fn.__name__
         if isinstance(base, type) and base in (int, float, str, bool, list, dict, tuple, set, type(None)) and e.attr == "__name__": return base.__name__
         if isinstance(base, InstObj):
@@ -569,8 +572,13 @@ class _BoundedItertools:
     __name__ = "itertools"
     @staticmethod
     def count(start=0, step=1): return list(range(start, start + 1000 * step, step)) if step else [start] * 1000
-    @staticmethod
-    def chain(*its): return [x for it in its for x in it]
+    class _Chain:
+        """itertools.chain: chain(a, b) gives the list of all items; chain.from_iterable consumes its iterables on demand, one after the other"""
+        def __call__(s, *its): return [x for it in its for x in it]
+        @staticmethod
+        def from_iterable(its):
+            for it in its: yield from it
+    chain = _Chain()
     @staticmethod
     def repeat(x, times=1000): return [x] * times
     @staticmethod
